@@ -183,6 +183,8 @@ def main_for(scn, prop, argv):
         reported += 1
         exit_code = 1       # a confirmed, replayable violation outranks a class that failed the replay gate
 
+    if reported:
+        exit_code = 1       # ... also when a later class failed the gate
     for k in sorted(new)[8:]:
         print("  further violation class %s in %d run(s), not minimised: %s" % (k, len(new[k]), new[k][0][2]["msg"][:300]), flush=True)
         if exit_code == 0:
